@@ -357,6 +357,13 @@ def rule_xward(ctx):
            "distinct buses of in-service elements" if ok else
            f"`for {norm(lp.target)} in {norm(lp.iter, 80)}`: buses of out-of-service xwards are visited and a bus with two xwards is "
            "visited twice (the share is added once per visit)", fi.loc(lp))
+    ne = next((st for st in fi.node.body if isinstance(st, ast.Assign) and norm(st.targets[0], 20) == "node_elements"), None)
+    got = [e.value for e in ne.value.elts if isinstance(e, ast.Constant)] if ne is not None and isinstance(ne.value, (ast.List, ast.Tuple)) else []
+    need = {"sgen", "load", "ward", "xward", "storage"}
+    ctx.ob(R, f"{RB}::_extract_dist_slack_pq_results::node-elements", need <= set(got),
+           f"constant demand of {sorted(got)} is subtracted" if need <= set(got) else
+           f"node_elements = {got} lacks {sorted(need - set(got))}: the demand of such an element at the xward bus is booked as slack share of the xward "
+           "and counted twice", fi.loc(ne) if ne is not None else fi.loc())
     # connected elements: in service only
     conns = [n for n in ast.walk(lp) if isinstance(n, ast.Assign) and len(n.targets) == 1 and isinstance(n.targets[0], ast.Name) and n.targets[0].id == "conn"]
     if not conns:
@@ -477,6 +484,7 @@ def variants(repo):
         V("ref rows dropped from residual", npf, replace_once("F = r_[mis[ref].real, mis[pv].real, mis[pq].real, mis[pq].imag]", "F = r_[mis[ref[1:]].real, mis[pv].real, mis[pq].real, mis[pq].imag]"), "residual-rows"),
         V("non-numba jacobian without weights", cj, replace_once("J = _create_J_without_numba(Ybus, V, ref, pvpq, pq, slack_weights, dist_slack)", "J = _create_J_without_numba(Ybus, V, ref, pvpq, pq, None, dist_slack)"), "_create_J_without_numba"),
         V("weighted gens not reference", nr, replace_once('ref_gens = union1d(internal["ref_gens"], gens_with_slack_weights)', 'ref_gens = internal["ref_gens"]'), "SW-REF"),
+        V("storage not among the node elements", rb, replace_once("node_elements = ['sgen', 'load', 'ward', 'xward', 'storage']", "node_elements = ['sgen', 'load', 'ward', 'xward']"), "node-elements"),
         V("out-of-service neighbours subtracted", rb, replace_once("conn = net[e].loc[net[e].in_service & (net[e].bus == b)].index.values", "conn = net[e].index.values[net[e].bus.values == b]"), "connected0"),
         V("storage counted as generation", rb, replace_once('p_bus -= p_elm.sum() * (-1 if e == "sgen" else 1)', 'p_bus -= p_elm.sum() * (-1 if e in ("sgen", "storage") else 1)'), "constant-demand0"),
         V("only the second reference bus becomes pv", npf, replace_once("pv = r_[ref[1:], pv]", "pv = r_[ref[1], pv]"), "further-references-become-pv"),
